@@ -159,6 +159,8 @@ K({
     "complete": False,
     "bound": "<= 3 arguments",
     "mods": [{"into": "chalk-ir/src/zip.rs", "harness": "chalk_ir/k7_zip_substs.rs", "name": "verif_k7"}],
+    # generated by the k7_case! macro (concrete argument count x variances declared or not)
+    "harnesses": ["k7_zip_substs_positions_n%d_%s" % (n, w) for w in ("declared", "none") for n in range(4)],
     "targets": [
         {"file": "chalk-ir/src/zip.rs", "fn": "zip_substs", "path": "Zipper::zip_substs",
          "clauses": ["position i related at ambient.xform(variances[i]) (Invariant if none), in order, once", "stops at the first error and returns it"]},
